@@ -278,10 +278,16 @@ func (w *c26Worker) firstCall(afterRestart bool) error {
 	if out.Err == "" {
 		return nil
 	}
-	if afterRestart && out.Err != rpc.ErrShutdown.Error() && out.Err != daemon.ErrDaemonUnreachable.Error() {
+	// After a restart the old connection is dead; until the client's reader
+	// goroutine has noticed, requests fail with transport errors (broken pipe,
+	// connection reset, EOF) that the client does not retry. Daemon restarts are
+	// not part of the property (one storage daemon), so such errors are
+	// tolerated a few times while the client catches up.
+	for try := 0; afterRestart && try < 8 && out.Err != "" && out.Err != rpc.ErrShutdown.Error() && out.Err != daemon.ErrDaemonUnreachable.Error(); try++ {
 		w.recs = w.recs[:len(w.recs)-1]
 		vs.Excluded("first request after daemon restart hit a transport error before the client noticed the closed connection")
 		first := out.Err
+		time.Sleep(time.Duration(try+1) * time.Millisecond)
 		out = w.do(c24In{K: "nextseq"})
 		w.recs[len(w.recs)-1].firstTry = first
 		if out.Err == "" {
